@@ -37,7 +37,7 @@ MUTANTS = [
          "        let credential_id_len =\n            u16::try_from(self.credential_id.len()).map_err(|_| Error::Other)?;", "        let credential_id_len = self.credential_id.len() as u16;")]),
     dict(id="m07-drop-error", fires=["C07"], key="propagated", edits=[("src/ctap2.rs", "        bytes.push(self.flags.bits()).map_err(|_| Error::Other)?;", "        bytes.push(self.flags.bits()).ok();")]),
     # ---- C08
-    dict(id="m08-lt-64", fires=["C08"], key="ins2", edits=[("src/ctap1.rs", "if request.len() < 65 {", "if request.len() < 64 {")]),
+    dict(id="m08-lt-64", fires=["C08"], key="bounds", edits=[("src/ctap1.rs", "if request.len() < 65 {", "if request.len() < 64 {")]),
     dict(id="m08-weak-register", fires=["C08"], key="ins1", edits=[("src/ctap1.rs", "if request.len() != 64 {", "if request.len() < 64 {")]),
     dict(id="m08-class-after-version", fires=["C08"], key="class", edits=[("src/ctap1.rs",
          "        if cla != 0 {\n            return Err(Error::ClassNotSupported);\n        }\n\n        if ins == 0x3 {\n            // for some weird historical reason, [0, 3, 0, 0, 0, 0, 0, 0, 0]\n            // is valid to send here.\n            return Ok(Request::Version);\n        };",
